@@ -490,7 +490,7 @@ func init() {
 					if r.Thorough() {
 						return 4
 					}
-					return 2
+					return 3
 				},
 				Body: c14Body,
 			},
